@@ -16,11 +16,13 @@ var modelNames = map[string]bool{
 	"strings.Compare": true, "strings.EqualFold": false,
 	"(time.Time).Before": true, "(time.Time).After": true, "(time.Time).Equal": true, "(time.Time).Compare": true,
 	"(time.Time).IsZero": false,
-	"(time.Time).Add": true, "(time.Time).Sub": true,
+	"(time.Time).Add":    true, "(time.Time).Sub": true,
 	"(time.Duration).Seconds": true,
-	"cmp.Compare":        true,
-	"sync.NewCond":       true,
-	"fmt.Errorf":         true, "errors.New": true,
+	"time.Now": true, "time.Until": true, "time.Since": true,
+	"math/rand/v2.Float64": true, "math/rand/v2.IntN": true, "math/rand.Float64": true, "math/rand.Intn": true,
+	"cmp.Compare":             true,
+	"sync.NewCond":            true,
+	"fmt.Errorf":              true, "errors.New": true,
 	"sort.SliceStable": false, "sort.Slice": false, "sort.Strings": false,
 }
 
@@ -108,6 +110,41 @@ func (E *Engine) model(fr *Frame, st *State, name string, fn *ssa.Function, args
 		} else {
 			tb.AddTermAxiom(fmt.Sprintf("time$add#%d", r.id), ax, r)
 		}
+		return r, true
+	case "time.Now", "time.Until", "time.Since":
+		// a ghost clock that never runs backwards: every reading is at or after the previous one
+		// (in specifications the clock is read without advancing)
+		E.heapSorts["time$clock"] = SInt
+		prev := E.get(st, "time$clock", SInt)
+		now := prev
+		if !fr.spec {
+			now = tb.Fresh("now", SInt)
+			E.addFact(st, tb.Cmp(">=", now, prev))
+			E.set(st, "time$clock", now)
+		}
+		switch name {
+		case "time.Until":
+			return tb.Arith("-", E.timeKey(t(0)), now), true
+		case "time.Since":
+			return tb.Arith("-", now, E.timeKey(t(0))), true
+		}
+		ts := E.sortOf(fn.Signature.Results().At(0).Type(), nil)
+		r := tb.UF("time$at", ts, now)
+		tb.AddTermAxiom(fmt.Sprintf("time$at#%d", r.id), tb.Eq(E.timeKey(r), now), r)
+		return r, true
+	case "math/rand/v2.Float64", "math/rand.Float64":
+		if fr.spec {
+			return nil, false
+		}
+		r := tb.Fresh("rand", SReal)
+		E.addFact(st, tb.And(tb.Cmp(">=", r, tb.Real("0.0")), tb.Cmp("<", r, tb.Real("1.0"))))
+		return r, true
+	case "math/rand/v2.IntN", "math/rand.Intn":
+		if fr.spec {
+			return nil, false
+		}
+		r := tb.Fresh("rand", SInt)
+		E.addFact(st, tb.And(tb.Cmp(">=", r, tb.Int(0)), tb.Cmp("<", r, t(0))))
 		return r, true
 	case "(time.Duration).Seconds":
 		// exact in the reals (float64 rounding of very long durations is ignored)
